@@ -390,7 +390,7 @@ def gen():
         calls = find_call(fn, dotted) if fn is not None else []
         fsk = {unparse(kwarg(c, 'Fs')) if kwarg(c, 'Fs') is not None else None for c in calls}
         for side, e in (('onesided', one), ('twosided', two)):
-            if cfn is None or not calls or len(fsk) != 1 or None in fsk or any(kwarg(c, 'NFFT') is not None or kwarg(c, 'N') is not None for c in calls):
+            if cfn is None or not calls or len(fsk) != 1 or None in fsk or any(kwarg(c, 'NFFT') is not None or kwarg(c, 'N') is not None or kwarg(c, 'Sk') is not None or len(c.args) > 1 for c in calls):
                 emit('%s_%s' % (site_prefix, side), '.unsupported', None)
                 continue
             fs_term = Ctx(fn, AN_ENV, trees=trees).s(kwarg(calls[0], 'Fs'))
@@ -535,8 +535,275 @@ def gen_methods():
     return 'Methods.lean', '\n'.join(lines), echo
 
 
-GENERATORS = [gen, gen_methods]
+# ------------------------------------------------------------------ FROM WHICH QUANTITY the grid length is taken
+# Symbolic execution of the top-level statements of an estimator up to the statement that builds the grid
+# (`if sides == 'onesided': … freqs = …`).  Tracked values (python-side trees, rendered to Lean at the end):
+#   Len ::= 'data' | 'nfft' | 'given' | ('ite', cond, Len, Len) | 'bad'          (Nitime.C05.LenExpr)
+#   Tr  ::= 'supplied' | ('fft', Len) | ('ite', cond, Tr, Tr) | 'bad'            (Nitime.C05.TrExpr)
+#   cond: Lean text of an LCond
+# Everything outside the fragment becomes 'bad' / '.unknown', and the theorem about that estimator stops checking.
+LEN_SITES = [('periodogram', 'N', 'N'), ('periodogram_csd', 'N', 'NFFT'),
+             ('multi_taper_psd', 'NFFT', 'NFFT'), ('multi_taper_csd', 'NFFT', 'NFFT')]     # (function, grid name, length parameter)
+TR_CANDIDATES = ['Sk_loc', 'spectra', 'Sk']
+FFT_FUNCS = ('fftpack.fft', 'np.fft.fft', 'scipy.fftpack.fft', 'fft')
+DATA_KEEPING = ('%s.reshape(', 'remove_bias(%s', 'utils.remove_bias(%s', 'np.asarray(%s', 'np.atleast_2d(%s', 'np.ascontiguousarray(%s')
+
+
+def _ite(c, a, b):
+    return a if a == b else ('ite', c, a, b)
+
+
+def tr_len(t):
+    if t == 'supplied':
+        return 'given'
+    if isinstance(t, tuple) and t[0] == 'fft':
+        return t[1]
+    if isinstance(t, tuple) and t[0] == 'ite':
+        return _ite(t[1], tr_len(t[2]), tr_len(t[3]))
+    return 'bad'
+
+
+def render_len(t):
+    if isinstance(t, tuple):
+        return '(.ite %s %s %s)' % (t[1], render_len(t[2]), render_len(t[3]))
+    return '.' + t
+
+
+def render_tr(t):
+    if isinstance(t, tuple) and t[0] == 'fft':
+        return '(.fft %s)' % render_len(t[1])
+    if isinstance(t, tuple):
+        return '(.ite %s %s %s)' % (t[1], render_tr(t[2]), render_tr(t[3]))
+    return '.' + t
+
+
+class LenExec:
+    def __init__(self, trees, depth=0):
+        self.trees, self.depth = trees, depth
+
+    # state: {'@data': name of the data array or None, name: ('len', Len) | ('tr', Tr)}
+    def len_of(self, node, st):
+        if isinstance(node, ast.Name):
+            b = st.get(node.id)
+            return b[1] if b and b[0] == 'len' else None
+        if isinstance(node, ast.Subscript) and isinstance(node.value, ast.Attribute) and node.value.attr == 'shape' \
+                and isinstance(node.value.value, ast.Name) and unparse(node.slice) == '-1':
+            x = node.value.value.id
+            if x == st.get('@data'):
+                return 'data'
+            b = st.get(x)
+            if b and b[0] == 'tr':
+                return tr_len(b[1])
+            return None
+        if isinstance(node, ast.IfExp):
+            a, b = self.len_of(node.body, st), self.len_of(node.orelse, st)
+            if a is None or b is None:
+                return None
+            return _ite(self.cond(node.test, st), a, b)
+        return None
+
+    def cond(self, test, st):
+        if isinstance(test, ast.Compare) and len(test.ops) == 1 and isinstance(test.left, ast.Name) \
+                and isinstance(test.comparators[0], ast.Constant) and test.comparators[0].value is None \
+                and isinstance(test.ops[0], (ast.Is, ast.IsNot)):
+            b = st.get(test.left.id)
+            base = '.skGiven' if b == ('tr', 'supplied') else '.nfftGiven' if b == ('len', 'nfft') else None
+            if base is None:
+                return '.unknown'
+            return base if isinstance(test.ops[0], ast.IsNot) else '(.not %s)' % base
+        if isinstance(test, ast.UnaryOp) and isinstance(test.op, ast.Not):
+            return '(.not %s)' % self.cond(test.operand, st)
+        if isinstance(test, ast.Name):
+            return '.nfftTruthy' if st.get(test.id) == ('len', 'nfft') else '.unknown'
+        if isinstance(test, ast.BoolOp):
+            parts = [self.cond(v, st) for v in test.values]
+            op = '.or' if isinstance(test.op, ast.Or) else '.and'
+            acc = parts[0]
+            for p in parts[1:]:
+                acc = '(%s %s %s)' % (op, acc, p)
+            return acc
+        if isinstance(test, ast.Compare) and len(test.ops) == 1 and isinstance(test.ops[0], ast.Lt):
+            if self.len_of(test.left, st) == 'nfft' and self.len_of(test.comparators[0], st) == 'data':
+                return '.nfftLtData'
+        return '.unknown'
+
+    def last_len(self, node, st):
+        """Len of the last component of a shape expression: `(a, b, N)`, `rest + (K, N)`, or the last positional argument"""
+        if isinstance(node, ast.Tuple) and node.elts:
+            return self.len_of(node.elts[-1], st)
+        if isinstance(node, ast.BinOp) and isinstance(node.op, ast.Add):
+            return self.last_len(node.right, st)
+        return self.len_of(node, st)
+
+    def tr_of(self, node, st):
+        if isinstance(node, ast.Name):
+            b = st.get(node.id)
+            return b[1] if b and b[0] == 'tr' else None
+        if not isinstance(node, ast.Call):
+            return None
+        fsrc = unparse(node.func)
+        if fsrc in FFT_FUNCS:
+            n = kwarg(node, 'n')
+            if n is None and len(node.args) >= 2:
+                n = node.args[1]
+            if n is not None:
+                return ('fft', self.len_of(n, st) or 'bad')
+            if node.args and isinstance(node.args[0], ast.Name) and node.args[0].id == st.get('@data'):
+                return ('fft', 'data')
+            return ('fft', 'bad')
+        if isinstance(node.func, ast.Attribute) and node.func.attr == 'reshape' and isinstance(node.func.value, ast.Name):
+            b = st.get(node.func.value.id)
+            if b and b[0] == 'tr':
+                last = self.last_len(node.args[-1], st) if node.args else None
+                return b[1] if last is not None and last == tr_len(b[1]) else 'bad'
+            return None
+        if fsrc == 'np.rollaxis' and len(node.args) >= 2 and isinstance(node.args[0], ast.Name):
+            # moving axis 0/1 of the (M, K, NFFT) array to position 0/1 leaves the last axis (the frequency bins) alone
+            b = st.get(node.args[0].id)
+            if b and b[0] == 'tr':
+                start = kwarg(node, 'start') if kwarg(node, 'start') is not None else (node.args[2] if len(node.args) > 2 else ast.Constant(0))
+                ok = all(isinstance(a, ast.Constant) and a.value in (0, 1) for a in (node.args[1], start))
+                return b[1] if ok else 'bad'
+            return None
+        if fsrc in ('tapered_spectra', 'utils.tapered_spectra', 'tsu.tapered_spectra'):
+            return self.inline_tapered(node, st)
+        return None
+
+    def inline_tapered(self, call, st):
+        fn = T.find_func(self.trees['utils'], 'tapered_spectra') or T.find_func(self.trees['spectral'], 'tapered_spectra')
+        if fn is None or self.depth > 1 or not call.args or not isinstance(call.args[0], ast.Name) or call.args[0].id != st.get('@data'):
+            return 'bad'
+        params = [a.arg for a in fn.args.args]
+        if not params:
+            return 'bad'
+        st2 = {'@data': params[0]}
+        nf = kwarg(call, 'NFFT')
+        if nf is None and len(call.args) >= 3:
+            nf = call.args[2]
+        if 'NFFT' in params:
+            st2['NFFT'] = ('len', (self.len_of(nf, st) or 'bad') if nf is not None else 'bad')
+            if nf is None:
+                return 'bad'             # the callee's default is not followed here
+        sub = LenExec(self.trees, self.depth + 1)
+        st2 = sub.run(fn.body, st2, lambda s_: False)
+        outs = set()
+        for r in ast.walk(fn):
+            if isinstance(r, ast.Return) and r.value is not None:
+                v = r.value.elts[0] if isinstance(r.value, ast.Tuple) and r.value.elts else r.value
+                outs.add(sub.tr_of(v, st2) or 'bad')
+        return outs.pop() if len(outs) == 1 else 'bad'
+
+    def kill_assigned(self, node, st):
+        for n in ast.walk(node):
+            if isinstance(n, ast.Name) and isinstance(n.ctx, ast.Store) and n.id in st:
+                st[n.id] = (st[n.id][0], 'bad')
+            if isinstance(n, ast.Name) and isinstance(n.ctx, ast.Store) and n.id == st.get('@data'):
+                st['@data'] = None
+
+    def run(self, stmts, st, stop):
+        st = dict(st)
+        for s_ in stmts:
+            if stop(s_):
+                st['@stopped'] = True
+                return st
+            if isinstance(s_, ast.Assign) and len(s_.targets) == 1:
+                t = s_.targets[0]
+                if isinstance(t, ast.Name):
+                    if t.id == st.get('@data'):
+                        src = unparse(s_.value)
+                        if not any(src.startswith(p % t.id) for p in DATA_KEEPING):
+                            st['@data'] = None
+                        continue
+                    v = self.tr_of(s_.value, st)
+                    if v is not None:
+                        st[t.id] = ('tr', v)
+                        continue
+                    v = self.len_of(s_.value, st)
+                    if v is not None:
+                        st[t.id] = ('len', v)
+                    elif t.id in st:
+                        st[t.id] = (st[t.id][0], 'bad')
+                    continue
+                if isinstance(t, ast.Tuple) and t.elts and isinstance(t.elts[0], ast.Name):
+                    v = self.tr_of(s_.value, st)
+                    self.kill_assigned(t, st)
+                    if v is not None:
+                        st[t.elts[0].id] = ('tr', v)
+                    continue
+                if isinstance(t, ast.Attribute) and t.attr == 'shape' and isinstance(t.value, ast.Name):
+                    b = st.get(t.value.id)
+                    if b and b[0] == 'tr' and self.last_len(s_.value, st) != tr_len(b[1]):
+                        st[t.value.id] = ('tr', 'bad')
+                    continue
+                self.kill_assigned(s_, st)
+                continue
+            if isinstance(s_, ast.If):
+                c = self.cond(s_.test, st)
+                a, b = self.run(s_.body, st, lambda x: False), self.run(s_.orelse, st, lambda x: False)
+                for k in set(a) | set(b):
+                    if k.startswith('@'):
+                        if k == '@data' and a.get(k) != b.get(k):
+                            st[k] = None
+                        continue
+                    va, vb = a.get(k), b.get(k)
+                    if va == vb:
+                        st[k] = va
+                    elif va is None or vb is None or va[0] != vb[0]:
+                        st[k] = ((va or vb)[0], 'bad')
+                    else:
+                        st[k] = (va[0], _ite(c, va[1], vb[1]))
+                continue
+            if isinstance(s_, (ast.Expr, ast.Pass, ast.Import, ast.ImportFrom, ast.Assert, ast.Raise, ast.Return)):
+                continue
+            self.kill_assigned(s_, st)
+        return st
+
+
+def gen_lens():
+    trees = {'spectral': T.parse('nitime/algorithms/spectral.py'), 'utils': T.parse('nitime/utils.py')}
+    echo, rows = {}, []
+    for fname, gname, pname in LEN_SITES:
+        fn = T.find_func(trees['spectral'], fname)
+        glen, tr, trname = 'bad', 'bad', None
+        if fn is not None:
+            params = [a.arg for a in fn.args.args]
+            st = {'@data': params[0] if params else None}
+            if pname in params:
+                st[pname] = ('len', 'nfft')
+            if 'Sk' in params:
+                st['Sk'] = ('tr', 'supplied')
+            is_stop = lambda s_: isinstance(s_, ast.If) and unparse(s_.test) == "sides == 'onesided'"
+            ex = LenExec(trees)
+            st = ex.run(fn.body, st, is_stop)
+            if st.get('@stopped'):
+                b = st.get(gname)
+                glen = b[1] if b and b[0] == 'len' else 'bad'
+                # the transform the values are read from: the first candidate that is bound to a transform when the grid
+                # is built and that the body reads in a subscript / product / call (not only in `is None` tests)
+                used = {n.id for n in ast.walk(fn) if isinstance(n, ast.Name) and isinstance(n.ctx, ast.Load)}
+                for cand in TR_CANDIDATES:
+                    b = st.get(cand)
+                    if b and b[0] == 'tr' and cand in used:
+                        tr, trname = b[1], cand
+                        break
+        rows.append((fname, render_len(glen), render_tr(tr)))
+        echo[fname] = {'grid_length_name': gname, 'grid_length': render_len(glen), 'transform_variable': trname, 'transform': render_tr(tr)}
+    lines = ['-- GENERATED by harness/translate_c05.py (gen_lens): symbolic execution of the estimators up to the statement that builds the grid. DO NOT EDIT.',
+             'import Nitime.Model.C05Len', 'namespace Nitime.Generated.GridLens', 'open Nitime.C05', '']
+    for fname, g, t in rows:
+        lines.append('/-- `%s`: what `%s` (the length the grid is built from) is bound to, and the transform the spectral values are read from -/' % (
+            fname, echo[fname]['grid_length_name']))
+        lines.append('def %s : LenSite := ⟨%s, %s⟩' % (fname, g, t))
+        lines.append('')
+    lines.append('def lens : List (String × LenSite) := [')
+    lines.append(',\n'.join('  ("%s", %s)' % (fname, fname) for fname, _, _ in rows))
+    lines += [']', '', 'end Nitime.Generated.GridLens', '']
+    return 'GridLens.lean', '\n'.join(lines), echo
+
+
+GENERATORS = [gen, gen_methods, gen_lens]
 
 if __name__ == '__main__':
     print(gen()[1])
     print(gen_methods()[1])
+    print(gen_lens()[1])
